@@ -152,10 +152,11 @@ class HttpParser:
 
     def should_keep_alive(self):
         """Return True if the connection should be kept alive"""
-        hconn = self._headers.get('connection', '').lower()
-        if hconn == 'close':
+        # Connection is a comma separated list of case-insensitive options
+        options = [x.strip() for x in self._headers.get('connection', '').lower().split(',')]
+        if 'close' in options:
             return False
-        if hconn == 'keep-alive':
+        if 'keep-alive' in options:
             return True
         return self._version == (1, 1)
 
